@@ -352,6 +352,35 @@ func permutedSgxExtension(p *world.Platform, r *mrand.Rand) []byte {
 	tcb := world.SgxTcbElems(p)
 	r.Shuffle(len(tcb), func(a, b int) { tcb[a], tcb[b] = tcb[b], tcb[a] })
 	top := world.SgxTopElems(p, tcb)
+	if r.Intn(2) == 0 {
+		top = append(top, platformSubExtensions(r)...)
+	}
 	r.Shuffle(len(top), func(a, b int) { top[a], top[b] = top[b], top[a] })
 	return world.Seq(top...)
+}
+
+// platformSubExtensions are the further sub-extensions of a platform PCK certificate, none of which the library reads: SGX Type
+// (Standard / Scalable / Scalable with Integrity), Platform Instance ID, and Configuration — a sequence of flags each of which is
+// optional on its own (any subset of Dynamic Platform, Cached Keys, SMT Enabled, in any order; newer profiles may add more).
+func platformSubExtensions(r *mrand.Rand) [][]byte {
+	var out [][]byte
+	if r.Intn(4) != 0 {
+		out = append(out, world.Seq(world.OID(5), world.TLV(0x0a, []byte{byte(r.Intn(3))})))
+	}
+	if r.Intn(4) != 0 {
+		inst := make([]byte, 16)
+		r.Read(inst)
+		out = append(out, world.Seq(world.OID(6), world.Octets(inst)))
+	}
+	if r.Intn(5) != 0 {
+		var flags [][]byte
+		for _, k := range r.Perm(4) {
+			if k == 3 && r.Intn(3) != 0 || k < 3 && r.Intn(3) == 0 {
+				continue
+			}
+			flags = append(flags, world.Seq(world.OID(7, k+1), world.TLV(1, []byte{[]byte{0, 0xff}[r.Intn(2)]})))
+		}
+		out = append(out, world.Seq(world.OID(7), world.Seq(flags...)))
+	}
+	return out
 }
